@@ -394,7 +394,20 @@ class Gen:
         opts += ["countb", "peek", "get", "put", "pop", "pushpair", "pushpair"]
         if strict_any:
             opts += ["every", "track"]
+        num_e = self.cols({"numE"}, strict=True)
+        if num_e:
+            opts += ["sum_e", "sum_e"]
         c = r.choice(opts)
+        if c == "sum_e":
+            # a sum over a column with empty cells: an empty cell adds nothing, and the value of sum() on that line is the running
+            # total as it stands - used as a value (assigned, compared) so that the per-line value is observed, not just the variable
+            f = L.fn("sum", self.href(r.choice(num_e)), quals=[self.fresh("s")])
+            form = r.choice(["bare", "assign", "assign", "cmp", "cmp"])
+            if form == "assign":
+                return L.assign(L.var(self.fresh("x")), f)
+            if form == "cmp":
+                return L.fn(r.choice(["above", "below", "gte"]), f, L.term(r.choice([0, 1, 5, 10, 12, 20])))
+            return f
         if c == "every":
             x = self.href(r.choice(strict_any)) if r.random() < 0.6 else L.fn("exists", self.href_any())
             return L.fn("every", x, L.term(r.choice([1, 2, 3])), quals=[self.fresh("e")])
@@ -696,6 +709,12 @@ class Gen:
                 cond = L.fn("exists", self.nonterm(cond)) if cond["k"] != "term" else L.fn("yes")
             comps.insert(r.randint(0, len(comps)), L.err(self.href_any()))
             comps.insert(r.randint(1, len(comps)), r.choice([L.fn("skip", cond), L.when(cond, L.fn("skip")), L.fn("skip")]))
+        num_e = self.cols({"numE"}, strict=True)
+        if num_e and r.random() < 0.3:
+            # the running total of a column with empty cells, observed as a value on every line (see stateful(): sum_e)
+            f = L.fn("sum", self.href(r.choice(num_e)), quals=[self.fresh("s")])
+            comps.insert(r.randint(0, len(comps)), r.choice([L.assign(L.var(self.fresh("x")), f),
+                                                            L.fn(r.choice(["above", "below", "gte"]), f, L.term(r.choice([0, 1, 5, 10, 12, 20])))]))
         ecols = self.cols({"txtE", "numE"})
         if ecols and r.random() < 0.12:
             # a variable assigned from a cell that may be empty, then tested for existence: a variable exists unless it is None
